@@ -308,6 +308,7 @@ func (h *FHDR) UnmarshalBinary(uplink bool, data []byte) error {
 	copy(fCntBytes, data[5:7])
 	h.FCnt = binary.LittleEndian.Uint32(fCntBytes)
 
+	h.FOpts = nil
 	if len(data) > 7 {
 		// copy the bytes: the decoded FOpts must not share memory with the
 		// caller's buffer
